@@ -210,7 +210,13 @@ impl Ctx {
             let got = u.cmp(&other);
             let ok = got == want
                 && (u < &other) == (want == std::cmp::Ordering::Less)
+                && (u <= &other) == (want != std::cmp::Ordering::Greater)
+                && (u > &other) == (want == std::cmp::Ordering::Greater)
+                && (u >= &other) == (want != std::cmp::Ordering::Less)
+                && u.partial_cmp(&other) == Some(want)
+                && other.cmp(u) == want.reverse()
                 && (u == &other) == (want == std::cmp::Ordering::Equal)
+                && (u != &other) == (want != std::cmp::Ordering::Equal)
                 && ((h(u) == h(&other)) || want != std::cmp::Ordering::Equal)
                 && {
                     let mn = std::cmp::min(*u, other);
